@@ -12,7 +12,7 @@ use crate::{
 /// Moves `carry` up through `limbs` limbs that hold no data (limbs that fall strictly below the last limb of
 /// the result when the shift exceeds its precision): each one divides the carry by 2^base2k (rounded).
 #[inline(always)]
-fn carry_skip_empty_limbs(base2k: usize, limbs: usize, carry: &mut [i64]) {
+pub(crate) fn carry_skip_empty_limbs(base2k: usize, limbs: usize, carry: &mut [i64]) {
     for _ in 0..limbs {
         carry.iter_mut().for_each(|c| {
             let digit: i64 = get_digit_i64(base2k, *c);
